@@ -20,7 +20,7 @@ TOL = 1e-11
 
 def plan(tier):
     n = 400 if tier == 'quick' else 8000
-    return dict(n_cases=n, shards=16, min_nontrivial=n // 3,
+    return dict(suite_monitor=True, n_cases=n, shards=16, min_nontrivial=n // 3,
                 min_hits={'solve': n // 6, 'Panel.static': n // 40},
                 min_tags={'obj:panel': n // 6, 'obj:assembly': n // 12, 'obj:bay': n // 12, 'obj:matrix': n // 10,
                           'force:skin': n // 30, 'force:flange': n // 40, 'force:base': n // 60, 'model:plate_w': n // 60, 'model:kpanel': n // 60},
